@@ -49,4 +49,35 @@ pub mod verif_support {
     pub fn switches() -> usize {
         unsafe { SWITCH_COUNT }
     }
+
+    // ---- assumed contract for TaskSet (a BitVec: bitvec's pointer encoding is out of CBMC's reach) ----
+    // One TaskSet per harness; its contents live in this model. insert/remove/contains/is_empty have set semantics.
+    use crate::runtime::task::{TaskId, TaskSet};
+    pub static mut TS_MODEL: [bool; 4] = [false; 4];
+    pub fn ts_insert(_s: &mut TaskSet, tid: TaskId) -> bool {
+        let i: usize = tid.into();
+        unsafe {
+            let old = TS_MODEL[i];
+            TS_MODEL[i] = true;
+            !old
+        }
+    }
+    pub fn ts_remove(_s: &mut TaskSet, tid: TaskId) -> bool {
+        let i: usize = tid.into();
+        unsafe {
+            let old = TS_MODEL[i];
+            TS_MODEL[i] = false;
+            old
+        }
+    }
+    pub fn ts_contains(_s: &TaskSet, tid: TaskId) -> bool {
+        let i: usize = tid.into();
+        unsafe { TS_MODEL[i] }
+    }
+    pub fn ts_is_empty(_s: &TaskSet) -> bool {
+        unsafe { !(TS_MODEL[0] || TS_MODEL[1] || TS_MODEL[2] || TS_MODEL[3]) }
+    }
+    pub fn ts_len() -> usize {
+        unsafe { TS_MODEL[0] as usize + TS_MODEL[1] as usize + TS_MODEL[2] as usize + TS_MODEL[3] as usize }
+    }
 }
